@@ -21,6 +21,9 @@ OddSelectors == {0, HUFFMAN, IMPLODE, 6, 10, 12, 20, 36, 65, 68, 192, 194}
 Full ==
   {[m |-> m, len |-> n, cls |-> cl] : m \in LosslessSingles, n \in BaseLens \cup BigLens \cup SeedLens, cl \in LosslessClasses}
   \cup {[m |-> m, len |-> n, cls |-> cl] : m \in AdpcmSelectors, n \in PcmLens \cup BigLens \cup {4 * (x \div 4) : x \in SeedLens}, cl \in PcmClasses}
+  \* the store-raw boundary 1 + |c| = n, hit exactly: z zero bytes followed by non-zero bytes make the sparse
+  \* encoder emit 4 + 1 + 1 + (n - z) bytes, so z = 7 is the last raw case and z = 8 the first prefixed one
+  \cup {[m |-> SPARSE, len |-> n, cls |-> cl] : n \in {9, 40, 135}, cl \in {"z6nz", "z7nz", "z8nz"}}
   \cup {[m |-> m, len |-> n, cls |-> cl] : m \in Selectors, n \in {0, 4, 5, 256, 4096, 4100}, cl \in {"run", "random", "pcm"}}
 
 InQuick(c) == /\ c.len <= 65537
